@@ -18,6 +18,7 @@ type rtrace struct {
 	cs    map[string]J // the generated case (input)
 	lines [][]byte     // init line + event lines
 	input string
+	idx   int
 }
 
 type traceOpts struct {
@@ -35,6 +36,10 @@ var tlcMu sync.Mutex
 // recordTraces runs the cases in record mode and turns the results into traces. Cases the real code crashed or hung
 // on become a one-event trace ("crash"/"hang") that the trace spec accepts only if the reference run is not judged.
 func (c *checkCtx) recordTraces(fam, casesFile string, o replayOpts, initLine func(cs map[string]J) map[string]J) []*rtrace {
+	return c.recordTracesWith(fam, casesFile, o, initLine, nil)
+}
+
+func (c *checkCtx) recordTracesWith(fam, casesFile string, o replayOpts, initLine func(cs map[string]J) map[string]J, each func(i int, r map[string]J)) []*rtrace {
 	cases, results := c.replay(fam, casesFile, o)
 	if c.discarded == nil {
 		c.discarded = map[string]int{}
@@ -45,7 +50,10 @@ func (c *checkCtx) recordTraces(fam, casesFile string, o replayOpts, initLine fu
 		c.evaluations++
 		st, _ := r["status"].(string)
 		in, _ := r["input"].(string)
-		tr := &rtrace{cs: cases[i], input: in}
+		tr := &rtrace{cs: cases[i], input: in, idx: i}
+		if each != nil {
+			each(i, r)
+		}
 		init := initLine(cases[i])
 		init["ev"] = "init"
 		b, _ := json.Marshal(init)
@@ -63,6 +71,10 @@ func (c *checkCtx) recordTraces(fam, casesFile string, o replayOpts, initLine fu
 			continue
 		case "crash", "hang":
 			det, _ := r["detail"].(string)
+			if c.crashDiscard != nil && c.crashDiscard(st, det) {
+				c.discarded["recorder:"+st+" (not attributable to the property)"]++
+				continue
+			}
 			tr.input = in + " [real interpreter: " + st + " " + oneLine(det, 200) + "]"
 			eb, _ := json.Marshal(map[string]J{"ev": st})
 			tr.lines = append(tr.lines, eb)
@@ -75,6 +87,28 @@ func (c *checkCtx) recordTraces(fam, casesFile string, o replayOpts, initLine fu
 		out = append(out, tr)
 	}
 	return out
+}
+
+// recordTracesInit: like recordTraces, with the init line taken from the result ("init") instead of the case.
+func (c *checkCtx) recordTracesInit(fam, casesFile string, o replayOpts) []*rtrace {
+	inits := map[string]map[string]J{}
+	traces := c.recordTracesWith(fam, casesFile, o, func(cs map[string]J) map[string]J { return map[string]J{} }, func(i int, r map[string]J) {
+		if m, ok := r["init"].(map[string]J); ok {
+			inits[strconv.Itoa(i)] = m
+		}
+	})
+	for _, t := range traces {
+		var first map[string]J
+		_ = json.Unmarshal(t.lines[0], &first)
+		first["size"], first["base"] = 0, 0
+		if m, ok := inits[strconv.Itoa(t.idx)]; ok {
+			for k, v := range m {
+				first[k] = v
+			}
+		}
+		t.lines[0], _ = json.Marshal(first)
+	}
+	return traces
 }
 
 // validateTraces has TLC check the recorded traces against the trace specification. Rejected traces become violations
